@@ -472,67 +472,80 @@ func TestVF_C15(t *testing.T) {
 		}})
 	}
 	// more entries than the open-file limit
-	cases = append(cases, vfCase{ID: "nofile-64", Run: func(c *vfCtx) {
-		r := c.R
-		src := filepath.Join(c.Dir, "src")
-		specs := []vfFileSpec{{Rel: "many", Dir: true}}
-		for k := 0; k < 600; k++ {
-			if k%2 == 0 {
-				specs = append(specs, vfFileSpec{Rel: fmt.Sprintf("many/f%04d", k), Size: 3, Content: "rand"})
-			} else {
-				specs = append(specs, vfFileSpec{Rel: fmt.Sprintf("many/d%04d/f", k), Size: 3, Content: "rand"})
+	for _, shape := range []string{"nofile-64", "nofile-deep"} {
+		shape := shape
+		cases = append(cases, vfCase{ID: shape, Run: func(c *vfCtx) {
+			r := c.R
+			src := filepath.Join(c.Dir, "src")
+			specs := []vfFileSpec{{Rel: "many", Dir: true}}
+			for k := 0; k < 600; k++ {
+				if shape == "nofile-deep" {
+					break
+				}
+				if k%2 == 0 {
+					specs = append(specs, vfFileSpec{Rel: fmt.Sprintf("many/f%04d", k), Size: 3, Content: "rand"})
+				} else {
+					specs = append(specs, vfFileSpec{Rel: fmt.Sprintf("many/d%04d/f", k), Size: 3, Content: "rand"})
+				}
 			}
-		}
-		if err := vfWriteTree(src, specs, r); err != nil {
-			c.Inconc("%v", err)
-			return
-		}
-		old := debug.SetGCPercent(-1)
-		defer debug.SetGCPercent(old)
-		var lim syscall.Rlimit
-		syscall.Getrlimit(syscall.RLIMIT_NOFILE, &lim)
-		low := lim
-		low.Cur = uint64(vfCountFDs() + 40)
-		if err := syscall.Setrlimit(syscall.RLIMIT_NOFILE, &low); err != nil {
-			c.Inconc("setrlimit: %v", err)
-			return
-		}
-		defer syscall.Setrlimit(syscall.RLIMIT_NOFILE, &lim)
-		nameJSON, rd, _, err := vfArchiveProduce(filepath.Join(src, "many"))
-		if err != nil && strings.Contains(err.Error(), "too many open files") {
-			c.Viol("c15-nofile-scan", "600-entry tree (300 sub-directories) with ~40 spare descriptors (GC disabled): scanning the tree failed: %v", vfClip(err.Error()))
-			return
-		}
-		if err != nil || rd == nil {
-			c.Inconc("produce: %v", err)
-			return
-		}
-		stream, err := vfReadAllSized(rd, []int{4096}, r, nil)
-		rd.Close()
-		if err != nil {
-			c.Viol("c15-nofile-reader", "600-entry tree with ~40 spare descriptors: reader failed: %v", vfClip(err.Error()))
-			return
-		}
-		dest := filepath.Join(c.Dir, "dst")
-		os.MkdirAll(dest, 0755)
-		_, w, local, err := vfArchiveConsume(dest, nameJSON)
-		if err != nil {
-			c.Viol("c15-consume-create", "%v", err)
-			return
-		}
-		werr := writeAll(w, stream)
-		w.Close()
-		syscall.Setrlimit(syscall.RLIMIT_NOFILE, &lim)
-		if werr != nil {
-			c.Viol("c15-nofile-writer", "600-entry tree with ~40 spare descriptors (GC disabled): writer failed: %v", vfClip(werr.Error()))
-			return
-		}
-		if d := vfTreeSubEqual(vfSnapshot(src), "many", vfSnapshot(dest), local); d != "" {
-			c.Viol("c15-tree-differs", "nofile: %s", d)
-			return
-		}
-		c.Nontrivial("nofile 600 entries, 40 spare descriptors")
-		c.Sample(map[string]interface{}{"kind": "open-file limit", "entries": 600, "spare_descriptors": 40})
-	}})
+			if shape == "nofile-deep" { // a chain of 90 nested directories: descriptors in use must not grow with the depth either
+				p := "many"
+				for d := 0; d < 90; d++ {
+					p = filepath.Join(p, fmt.Sprintf("n%d", d))
+					specs = append(specs, vfFileSpec{Rel: p, Dir: true}, vfFileSpec{Rel: filepath.Join(p, "f"), Size: 2, Content: "rand"})
+				}
+			}
+			if err := vfWriteTree(src, specs, r); err != nil {
+				c.Inconc("%v", err)
+				return
+			}
+			old := debug.SetGCPercent(-1)
+			defer debug.SetGCPercent(old)
+			var lim syscall.Rlimit
+			syscall.Getrlimit(syscall.RLIMIT_NOFILE, &lim)
+			low := lim
+			low.Cur = uint64(vfCountFDs() + 40)
+			if err := syscall.Setrlimit(syscall.RLIMIT_NOFILE, &low); err != nil {
+				c.Inconc("setrlimit: %v", err)
+				return
+			}
+			defer syscall.Setrlimit(syscall.RLIMIT_NOFILE, &lim)
+			nameJSON, rd, _, err := vfArchiveProduce(filepath.Join(src, "many"))
+			if err != nil && strings.Contains(err.Error(), "too many open files") {
+				c.Viol("c15-nofile-scan", "%s (600 entries with 300 sub-directories, or a chain of 90 nested directories) with ~40 spare descriptors (GC disabled): scanning the tree failed: %v", shape, vfClip(err.Error()))
+				return
+			}
+			if err != nil || rd == nil {
+				c.Inconc("produce: %v", err)
+				return
+			}
+			stream, err := vfReadAllSized(rd, []int{4096}, r, nil)
+			rd.Close()
+			if err != nil {
+				c.Viol("c15-nofile-reader", "600-entry tree with ~40 spare descriptors: reader failed: %v", vfClip(err.Error()))
+				return
+			}
+			dest := filepath.Join(c.Dir, "dst")
+			os.MkdirAll(dest, 0755)
+			_, w, local, err := vfArchiveConsume(dest, nameJSON)
+			if err != nil {
+				c.Viol("c15-consume-create", "%v", err)
+				return
+			}
+			werr := writeAll(w, stream)
+			w.Close()
+			syscall.Setrlimit(syscall.RLIMIT_NOFILE, &lim)
+			if werr != nil {
+				c.Viol("c15-nofile-writer", "600-entry tree with ~40 spare descriptors (GC disabled): writer failed: %v", vfClip(werr.Error()))
+				return
+			}
+			if d := vfTreeSubEqual(vfSnapshot(src), "many", vfSnapshot(dest), local); d != "" {
+				c.Viol("c15-tree-differs", "nofile: %s", d)
+				return
+			}
+			c.Nontrivial(shape + ": 40 spare descriptors")
+			c.Sample(map[string]interface{}{"kind": "open-file limit", "shape": shape, "entries": len(specs), "spare_descriptors": 40})
+		}})
+	}
 	vfRunCases(t, "C15", cases, 1, 120*time.Second)
 }
